@@ -215,6 +215,14 @@ def run_cases(ctx, name, cases, check, minimise=True):
                 return None
             except Fail as f:
                 return f
+            except HarnessError:
+                # names drawn from the literals of the tree under test may collide with the harness'
+                # own C++ or with a system header (a namespace called `select`): no verdict for
+                # such a case, it is counted; anything else stays a harness error
+                if isinstance(case, dict) and 'dict_names' in (case.get('sm') or {}).get('features', []):
+                    ctx.inconclusive['dictionary-named model collides with harness / system header'] += 1
+                    return None
+                raise
             finally:
                 shutil.rmtree(d, ignore_errors=True)
         with ThreadPoolExecutor(max_workers=min(16, os.cpu_count() or 4)) as ex:
